@@ -21,7 +21,7 @@
 package ce
 
 import (
-	"bufio"
+	"bytes"
 	"fmt"
 	"io"
 
@@ -49,14 +49,13 @@ type UniversalDecoder struct {
 }
 
 func (_this *UniversalDecoder) Decode(reader io.Reader, eventReceiver events.DataEventReceiver) error {
-	bufReader := bufio.NewReader(reader)
-	firstByte, err := bufReader.Peek(1)
+	firstByte, wholeReader, err := peekFirstByte(reader)
 	if err != nil {
 		return err
 	}
 
-	if decoder, err := chooseDecoder(firstByte[0], _this.config); err == nil {
-		return decoder.Decode(bufReader, eventReceiver)
+	if decoder, err := chooseDecoder(firstByte, _this.config); err == nil {
+		return decoder.Decode(wholeReader, eventReceiver)
 	} else {
 		return err
 	}
@@ -71,6 +70,34 @@ func (_this *UniversalDecoder) DecodeDocument(document []byte, eventReceiver eve
 	} else {
 		return err
 	}
+}
+
+// Read the first byte of a stream. Returns it along with a reader that yields
+// the whole stream, first byte included.
+//
+// An error that arrives together with the byte is an error of the stream: it is
+// reported (or, if it is io.EOF, the stream ends after that byte) rather than
+// left to a buffering layer, which may forget it once later reads succeed.
+func peekFirstByte(reader io.Reader) (firstByte byte, wholeReader io.Reader, err error) {
+	var buffer [1]byte
+	for i := 0; i < 100; i++ {
+		n, readErr := reader.Read(buffer[:])
+		if n > 0 {
+			first := bytes.NewReader(buffer[:])
+			switch readErr {
+			case nil:
+				return buffer[0], io.MultiReader(first, reader), nil
+			case io.EOF:
+				return buffer[0], first, nil
+			default:
+				return 0, nil, readErr
+			}
+		}
+		if readErr != nil {
+			return 0, nil, readErr
+		}
+	}
+	return 0, nil, io.ErrNoProgress
 }
 
 func chooseDecoder(identifier byte, config *configuration.Configuration) (decoder Decoder, err error) {
